@@ -4,13 +4,14 @@ CONSTANTS
   ThrMode = "fixed"
   EmptyMode = "fixed"
   RstMode = "pinned"
-  CfgSet <- CloseCfgs
+  CfgSet <- TinyCfg
   SameCfg = TRUE
   Openers = {"A"}
   MaxOpens = 1
   Ids = {1}
   Hosts = {"h0"}
-  MaxWrites = 2
+  MaxWrites = 1
+  Writers = {"A", "B"}
   Lens = {1}
   ReadMax = {4}
   Closers = {"A"}
